@@ -12,10 +12,17 @@ from runtime.sig import cs_sig, repr_value
 
 KINDS = {
     "array": "uint8 a[2];", "array2d": "uint8 a[2][2];", "nested": "struct { uint8 x; uint8 y; } a;", "anon": "struct { uint8 x; };",
+    "anon2": "uint8 k; struct { uint8 x; uint8 pad[2]; }; uint8 t;", "anonunion": "union { uint16 w; uint8 h[2]; };",
     "union": "union { uint16 w; uint8 h[2]; } a;", "chararray": "char a[4];", "wchararray": "wchar a[2];", "int": "uint32 a;",
     "enum": "E8 a;", "pointer": "uint8 *a;", "structarray": "inner a[2];", "enumarray": "E8 a[2];", "float": "float a;", "dynarray": "uint8 n; uint8 a[n];",
 }
 PRE = "struct inner { uint8 ia; uint16 ib; }; enum E8 : uint8 { A = 1 };\n"
+
+
+def _union_base():
+    from dissect.cstruct.types import Union
+
+    return Union
 
 
 def mutate(obj, depth=0):
@@ -25,6 +32,17 @@ def mutate(obj, depth=0):
     n = 0
     if depth > 4:
         return 0
+    # members of anonymous nested structures are reached through forwarded properties
+    for f in type(obj).__fields__:
+        if f.name is None and hasattr(f.type, "fields") and not hasattr(type(obj), "_buf") and not issubclass(type(obj), _union_base()):
+            for sub, sf in f.type.fields.items():
+                if isinstance(getattr(obj, sub, None), int):
+                    try:
+                        setattr(obj, sub, 66)
+                        n += 1
+                    except Exception:  # noqa: BLE001
+                        pass
+                    break
     for name in type(obj).fields:
         v = getattr(obj, name)
         if type(v).__name__ == "UnionProxy":
